@@ -34,6 +34,7 @@ type HarnessSpec struct {
 	KeepGeom  bool   `json:"keepgeom"` // do not merge byte windows of different concrete geometry
 	Params    map[string]int `json:"params"` // harness-visible bounds (ndParam)
 	Timeout   int    `json:"timeout_s"`
+	QueryTO   int    `json:"query_timeout_s"` // per solver query (default 60)
 	Bounds    string `json:"bounds"`  // human-readable statement of the bounds
 	Outside   string `json:"outside"` // what lies outside
 	Stubs     []string `json:"stubs"`
@@ -445,7 +446,11 @@ func runHarness(verifDir string, spec HarnessSpec, seed int, thorough bool) (*Ha
 	if bin == "" {
 		bin = "z3-new"
 	}
-	solver, err := NewSolver(bin, 60000, seed)
+	qto := 60000
+	if spec.QueryTO > 0 {
+		qto = spec.QueryTO * 1000
+	}
+	solver, err := NewSolver(bin, qto, seed)
 	if err != nil {
 		return nil, err
 	}
